@@ -56,6 +56,7 @@ KIND_NAMES = {
     1204: 'C12/policy: every consistent ForceIncoming/ForceOutgoing/DisableOutgoing setting through the real acceptor, incoming handshaker, dialer and outgoing handshaker of a torrent in the stepped loop, against scripted TCP peers (plain BitTorrent, MSE offering RC4 / clear / both; legacy clear-text-only listener, MSE listeners preferring RC4 / clear text / answering an invalid selection / hanging up) vs Mse.accept_policy and Mse.dial_policy: outcome class, connections made, which of them were clear text, clear text seen on the wire',
     2001: 'C20/owners: ownership table of package torrent regenerated from the Go source by the translator (fields of torrent and Session, accesses with the locks held and the goroutine contexts of the accessing function, sends on command channels, lock nesting incl. database transactions) checked entry by entry by Owner.mon_owner',
     2002: 'C20/api_stress: 4-11 client goroutines issue 40-120 public API calls each (stats, peers, trackers, web seeds, add peer by IP and host name, add tracker, start, stop, verify, announce, list/get, add+remove torrent, StartAll/StopAll, notify channels) on a live session with a 20 ms resume write interval: every call returns and the session closes',
+    903: 'C09/picker_ws: piecepicker with web seeds (PickWebseed, stop-at, close, web-seed and peer steals, PickFor in web-seed mode) under the torrent glue vs PickerWs.v (answers validated against the legal set)',
     1901: 'C19/private_flag: metainfo.NewInfo on generated encodings of the private field (integers incl. out of int64 range, strings, lists, dictionaries, absent) vs Priv.priv_of_raw',
     1902: 'session/private: private, public and magnet torrents in the stepped event loop with a scripted HTTP tracker and scripted peers, DHT/PEX/dial switches on and off, optionally after a session restart: addresses known by source, DHT announcer and request queue, PEX senders, magnet export, metadata adoption, user agent / peer id / client version, dial of a probe listener vs Priv.v',
 }
@@ -127,7 +128,7 @@ PROPS = {
         'assumptions': ['callers release only reservations they were granted (caller protocol)'],
     },
     'C09': {
-        'kinds': {901: {'quick': 1500, 'thorough': 40000}, 101: {'quick': 1500, 'thorough': 40000}, 1303: {'quick': 1500, 'thorough': 40000}},
+        'kinds': {901: {'quick': 1500, 'thorough': 40000}, 903: {'quick': 1500, 'thorough': 40000}, 101: {'quick': 1500, 'thorough': 40000}, 1303: {'quick': 1500, 'thorough': 40000}},
         'trusted': ['slices.SortFunc returns a permutation sorted by the key (ties in any order)', 'markFileEdges (file head/tail flags are taken from the real picker)'],
         'assumptions': ['the torrent loop calls the picker under the glue discipline modelled by Picker.pstep'],
     },
@@ -194,7 +195,8 @@ def distribution(pid, cases):
 MONITOR_DECIDES = {1503, 1701, 2001}
 
 # kind -> (tag kind, names): the model is run a second time to histogram the branches the cases reach
-TAG_KINDS = {901: (902, {1: 'peer already downloading', 2: 'no pick allowed (choked)', 3: 'allowed-fast / sequential-first', 4: 'file edge or sequential', 5: 'stage reached, no candidate', 6: 'end-game pick', 7: 'end-game starts', 8: 'stalled re-request', 9: 'rarest'})}
+TAG_KINDS = {901: (902, {1: 'peer already downloading', 2: 'no pick allowed (choked)', 3: 'allowed-fast / sequential-first', 4: 'file edge or sequential', 5: 'stage reached, no candidate', 6: 'end-game pick', 7: 'end-game starts', 8: 'stalled re-request', 9: 'rarest'}),
+             903: (904, {0: 'illegal answer', 1: 'web seed: no gap, nothing to steal', 2: 'web seed steals from a web seed', 3: 'web seed steal refused', 4: 'sequential: tail piece first', 5: 'sequential: first gap', 6: 'largest gap', 11: 'peer busy or choked in web-seed mode', 12: 'last piece of the smallest gap', 13: 'peer steals from a web seed', 14: 'web-seed mode: nothing for the peer', 21: 'stop-at keeps the downloader', 22: 'stop-at closes the downloader', 23: 'completed piece has no web-seed owner'})}
 
 # known-finding signatures: id -> predicate over a case dict (kind, in, obs, exp, mon)
 def _life_events(c):
